@@ -55,6 +55,54 @@ def judge_group(ctx, args, kwargs, result, exc, pre):
     ctx.state("group.case", (v == 0, h, bool(jack), len(notes) > 0, len(groups) != len(notes)))
 
 
+def judge_from_lists(ctx, args, kwargs, result, exc, pre):
+    """Pattern.from_note_lists: the pattern's notes are exactly the rows of the lists (column, time, item type) plus, when
+    requested, one HoldTail per hold at head + length - whatever the row labels or order of the lists."""
+    from rv.snapshot import rows
+
+    mon = "pattern.from_lists"
+    lists = list(args[0] if args else kwargs["note_lists"])
+    tails = kwargs.get("include_tails", args[1] if len(args) > 1 else True)
+    want = Counter()
+    try:
+        for nl in lists:
+            if not len(nl):
+                continue
+            tname = nl._item_class().__name__
+            is_hold = "length" in nl.df.columns
+            for r in rows(nl, ["column", "offset"] + (["length"] if is_hold else [])):
+                c, o = float(r[0]), float(r[1])
+                if math.isnan(c) or math.isnan(o) or (is_hold and math.isnan(float(r[2]))):
+                    return ctx.ood(mon, "nan")
+                want[(int(c) if c.is_integer() else c, o, tname)] += 1
+                if is_hold and tails:
+                    want[(int(c) if c.is_integer() else c, o + float(r[2]), "HoldTail")] += 1
+    except Exception:
+        return ctx.ood(mon, "lists_not_readable")
+    feat = dict(include_tails=bool(tails), default_labels=all(list(nl.df.index) == list(range(len(nl.df))) for nl in lists))
+    wit = dict(want=sorted(want.elements(), key=str)[:60], include_tails=bool(tails))
+    if exc is not None:
+        return ctx.violate("C20", mon, "raises", f"from_note_lists raised {type(exc).__name__}: {exc}", dict(wit, tb=core.short_tb(exc)), feat)
+    df = result.df
+    got = Counter()
+    for c, o, t in zip(df["column"].tolist(), df["offset"].tolist(), df["type"].tolist()):
+        c, o = float(c), float(o)
+        got[(int(c) if c.is_integer() else c, o, t.__name__)] += 1
+    if {k: v for k, v in got.items()} != {k: v for k, v in want.items()}:
+        def close(a, b):
+            return a[0] == b[0] and a[2] == b[2] and abs(a[1] - b[1]) <= 1e-9 * max(1.0, abs(a[1]))
+        extra, missing = list((got - want).elements()), list((want - got).elements())
+        for e in list(extra):
+            m = next((x for x in missing if close(e, x)), None)
+            if m is not None:
+                extra.remove(e)
+                missing.remove(m)
+        if extra or missing:
+            return ctx.violate("C20", mon, "notes", f"the pattern does not hold the notes of the lists: missing {missing[:4]}, extra {[str(e) for e in extra[:4]]}", wit, feat)
+    ctx.held(mon, "notes")
+    ctx.state("from_lists.case", (feat["include_tails"], feat["default_labels"], len(want) > 0))
+
+
 # ---------------------------------------------------------------------------
 # reference expansions
 
@@ -270,6 +318,7 @@ def install(ctx):
     from reamber.algorithms.pattern.Pattern import Pattern
 
     patch_method(Pattern, "group", monitor("pattern.group", judge_group))
+    patch_method(Pattern, "from_note_lists", monitor("pattern.from_lists", judge_from_lists))
     patch_method(PtnCombo, "combinations", monitor("combo.combinations", judge_combinations))
     patch_method(PtnFilterCombo, "create", monitor("filter.combo.create", make_judge_create("combo")))
     patch_method(PtnFilterChord, "create", monitor("filter.chord.create", make_judge_create("chord")))
